@@ -102,7 +102,7 @@ Proof.
   - apply fp_state; [intros s0 x0|intros s0]; unfold context_call; cbn [with_src ts];
       (destruct (ctx (ts s0)); [|destruct (cleaning (ts s0))]); try split; reflexivity.
   - apply fp_state; [intros s0 x0|intros s0]; unfold pop_cleanup; cbn [with_src ts];
-      destruct (cleanups (ts s0)) as [|[i c] r]; try split; reflexivity.
+      (destruct (cleanups (ts s0)) as [|[i c] r]; [|destruct (cleaning (ts s0))]); try split; reflexivity.
   - apply fp_state.
     + intros s0 x0. unfold failOnError. cbn [with_src ts]. destruct (failed (ts s0)); reflexivity.
     + intros s0. unfold failOnError. destruct (failed (ts s0)); split; reflexivity.
